@@ -142,7 +142,11 @@ let tag (input : string) (out : string) : string =
   let feat =
     (if List.nth f 3 <> "." || (List.nth f 4 <> "~" && List.nth f 4 <> ".") then "s" else "") ^
     (if String.contains body 'C' then "c" else "") ^
-    (if count_sub "M " body > 1 then "m" else "") in
+    (if count_sub "M " body > 1 then "m" else "") ^
+    (* z: the variation store has an ItemVariationData that lists no regions (blend with k = 0) *)
+    (match split_on ';' (List.nth f 8) with
+     | [_; _; _; ivds; _] when List.mem "." (split_on '/' ivds) -> "z"
+     | _ -> "") in
   k ^ ":" ^ kind_of out ^ (if kind_of out = "err" then ":" ^ body else ":" ^ feat)
 
 (* the contour discipline of the property: (M segment* Z)* *)
